@@ -165,6 +165,7 @@ def c14_extra(ROOT, tier, seed, sh, WORK):
     G = os.path.join(ROOT, 'gc_harness', 'gc_harness')
     runs = [('plain', {}, []), ('GOGC=1', {'GOGC': '1'}, []), ('gcgoroutine', {}, ['-gcgoroutine'])]
     tot = {'histories': 0, 'ops': 0, 'live_checks': 0, 'released_checks': 0}
+    retained = set()   # histories with a retention report in a regime without concurrent collection
     for name, env, flags in runs:
         p = subprocess.run([G, '-seed', str(seed % 100000), '-n', str(n)] + flags, capture_output=True, text=True,
                            env=dict(os.environ, **env), timeout=3000)
@@ -178,9 +179,21 @@ def c14_extra(ROOT, tier, seed, sh, WORK):
             tot[k] += int(v)
         kinds = {}
         for l in p.stdout.splitlines():
-            mm = re.match(r'FAIL history=\S+ op=\S+ ([a-z ]+):', l)
+            mm = re.match(r'FAIL history=(\S+) op=\S+ ([a-z ]+):', l)
             if mm:
-                kinds.setdefault(mm.group(1), []).append(l)
+                kind = mm.group(2)
+                if kind == 'storage retains removed payload':
+                    if name != 'gcgoroutine':
+                        retained.add(mm.group(1))
+                    elif mm.group(1).isdigit() and int(mm.group(1)) < n and mm.group(1) not in retained:
+                        # What the storage holds is a function of the history alone, and the SAME history
+                        # (same seed, same index) released everything in the two regimes in which the
+                        # collector only runs between operations.  A finalizer that does not run while a
+                        # goroutine collects concurrently is therefore not the storage keeping a reference:
+                        # in this regime the untyped moves of known finding K2 corrupt the heap ("marked
+                        # free object in span"), finalizer records included.  Reported under K2.
+                        kind = 'retention only under concurrent collection'
+                kinds.setdefault(kind, []).append(l)
         for kind, lines in kinds.items():
             if kind == 'suppressed':
                 continue
